@@ -10,6 +10,7 @@ be dispatched after it.  (The liveness half — "never zero times while the loop
 reporting readiness and is exercised by the correspondence check's drain phase, not proven.)
 -/
 import Sonic.Lemmas.LoopAcct
+import Sonic.Lemmas.LoopOnceRun
 
 namespace Sonic.Props.C01
 open Sonic.Model.Loop
@@ -150,5 +151,69 @@ theorem C01_start_on_closed_not_registered (w w' : World) (op k : Nat) (kind : O
   unfold step
   simp only [hst, hg, hc]
   simp
+
+/-! ### At most once, over whole histories -/
+
+theorem refs_nonneg (w : World) (x : Nat) : 0 ≤ refs w x := by
+  have := frameRefs_nonneg x w.stack; have := objRefs_nonneg x w.objs; have := postRefs_nonneg x w.posts
+  unfold refs; omega
+
+theorem kindOk_init : KindOk ({} : World) := by
+  intro op k hm; cases hm
+
+theorem acct_init' : AcctInv ({} : World) := by
+  refine ⟨by simp [ids], ?_⟩
+  simp [bits, postFrames]
+
+/-- **C01 (at most once).** For every event history the loop model accepts — any set of objects on one IO context,
+any order in which their descriptors become ready (any poll batches), any handler behaviour (re-issue, cancel, close,
+re-arm itself or another object), inline or deferred completion — the completion callback of an operation that is
+not a repeating timer is entered at most as many times as the program started an operation under that id: with
+fresh ids (each id started at most once), **at most once**. Together with the correspondence check (every trace of
+the real loop is a history the model accepts) this is the "never twice" half of the property. -/
+theorem C01_at_most_once (evs : List Ev) (w : World) (x : Nat) (h : run {} evs = some w)
+    (hnr : ∀ info, getOp w x = some info → info.kind ≠ .timerRep) (hfresh : startCount x evs ≤ 1) :
+    enterCount x evs ≤ 1 := by
+  have h1 := run_refs x evs {} w h acct_init' kindOk_init hnr
+  have h2 := refs_nonneg w x
+  have h3 : refs ({} : World) x = 0 := by simp [refs, frameRefs, objRefs, postRefs]
+  omega
+
+/-- A callback that was never started is never entered. -/
+theorem C01_no_callback_without_start (evs : List Ev) (w : World) (x : Nat) (h : run {} evs = some w)
+    (hnr : ∀ info, getOp w x = some info → info.kind ≠ .timerRep) (hnone : startCount x evs = 0) :
+    enterCount x evs = 0 := by
+  have h1 := run_refs x evs {} w h acct_init' kindOk_init hnr
+  have h2 := refs_nonneg w x
+  have h3 : refs ({} : World) x = 0 := by simp [refs, frameRefs, objRefs, postRefs]
+  have h4 : 0 ≤ enterCount x evs := by
+    clear h1 hnone h
+    induction evs with
+    | nil => simp [enterCount]
+    | cons e r ih => simp only [enterCount]; have : 0 ≤ entersOf x e := by cases e <;> simp only [entersOf] <;> first | omega | (split <;> omega)
+                     omega
+  omega
+
+/-- Once the callback has been entered, nothing in the model can still invoke it: no reference is left. -/
+theorem C01_completed_leaves_no_reference (evs : List Ev) (w : World) (x : Nat) (h : run {} evs = some w)
+    (hnr : ∀ info, getOp w x = some info → info.kind ≠ .timerRep) (hfresh : startCount x evs ≤ 1)
+    (hdone : enterCount x evs = 1) : refs w x = 0 := by
+  have h1 := run_refs x evs {} w h acct_init' kindOk_init hnr
+  have h2 := refs_nonneg w x
+  have h3 : refs ({} : World) x = 0 := by simp [refs, frameRefs, objRefs, postRefs]
+  omega
+
+/-! Non-vacuity: a history with a deferred read completed by the poller, a write completing inline whose handler
+cancels another read, and a post; every id is started once and entered once. -/
+def demo : List Ev :=
+  [.obj 1 .stream, .obj 2 .stream, .callStart 11 1 .read 8, .ret .plain, .callStart 12 2 .read 4, .ret .plain,
+   .callPost 13, .ret (.err true), .callStart 14 1 .write 3, .enter 14 .ok 3 [] false, .callCancel 2,
+   .enter 12 .cancelled 0 [] false, .exit 12, .ret .plain, .exit 14, .ret .plain,
+   .callPoll, .enter 13 .post 0 [] false, .exit 13, .enter 11 .ok 5 [] false, .exit 11, .ret (.poll 2 .ok)]
+
+example : (run {} demo).isSome = true := by decide
+example : startCount 11 demo = 1 ∧ enterCount 11 demo = 1 ∧ startCount 12 demo = 1 ∧ enterCount 12 demo = 1 := by decide
+-- and the model has no transition that would enter 11 a second time
+example : (run {} (demo ++ [.callPoll, .enter 11 .ok 1 [] false])) = none := by decide
 
 end Sonic.Props.C01
